@@ -131,6 +131,9 @@ def scenarios(tier):
         for reg in (('A', 'B'), ('B', 'A')):
             out.append({'name': f'registration[{VARIANTS[vi][0]}, toy conventions answering any integer, registered {reg}]', 'fn': 'scn_registered_any',
                         'kwargs': {'vi': vi, 'reg': reg}})
+    for reg in (('A', 'B'), ('B', 'A')):
+        out.append({'name': f'registration[{VARIANTS[0][0]}, two classes of one factory (same module and qualified name) answering any integer, registered {reg}]',
+                    'fn': 'scn_registered_any', 'kwargs': {'vi': 0, 'reg': reg, 'same_name': True}})
     for vi in base_variants + [TIE_VARIANT]:
         for name in ENTRY_ORDER:
             out.append({'name': f'registration of an entry-point class by hand[{VARIANTS[vi][0]}, register {name}]', 'fn': 'scn_register_known',
@@ -270,14 +273,28 @@ def scn_registered(c, vi, a, b, reg):
     c.check('registering a class twice changes nothing', again is after)
 
 
-def scn_registered_any(c, vi, reg):
+TOY_FACTORY_SRC = '''
+def make_toy(answer):
+    class Toy(Convention):
+        @classmethod
+        def check_dataset(cls, dataset):
+            return answer
+    return Toy
+
+ToyA = make_toy(TOY['A'])
+ToyB = make_toy(TOY['B'])
+'''
+
+
+def scn_registered_any(c, vi, reg, same_name=False):
     """check_dataset may answer any integer (the Specificity members are only names for three of them): two registered conventions answer
     arbitrary integers a and b; the winner has the highest answer, ties go to registered classes in registration order, then entry points."""
     it = new_interp()
     ds, expected = _dataset(c, vi)
     c.entry_points = _entry_points(it)
     a, b = c.fresh_int('spec_a'), c.fresh_int('spec_b')
-    env = it.run_snippet('emsarray.conventions._base', TOY_SRC, {'TOY': {'A': a, 'B': b}})
+    # same_name: the two classes come out of one class factory -- different classes with the same module and qualified name
+    env = it.run_snippet('emsarray.conventions._base', TOY_FACTORY_SRC if same_name else TOY_SRC, {'TOY': {'A': a, 'B': b}})
     toys = {'A': env['ToyA'], 'B': env['ToyB']}
     register = fn(it, 'emsarray.conventions._registry', 'register_convention')
     g = fn(it, 'emsarray.conventions._registry', 'get_dataset_convention')
@@ -285,6 +302,8 @@ def scn_registered_any(c, vi, reg):
         expect_ok(c, 'register_convention returns', lambda: call(it, register, toys[k]))
     got = expect_ok(c, 'detection returns', lambda: call(it, g, ds))
     name = got.name if isinstance(got, ClassInfo) else None
+    if same_name:
+        name = 'ToyA' if got is toys['A'] else ('ToyB' if got is toys['B'] else name)
     # candidates in tie-break order: registered classes in registration order, then the entry points in their order
     cands = [('Toy' + k, {'A': a, 'B': b}[k]) for k in reg] + [(n, expected[n]) for n in ENTRY_ORDER if expected.get(n) is not None]
     names = [n for n, _ in cands]
